@@ -849,3 +849,70 @@ Proof.
 Qed.
 
 End Proofs.
+
+(** ** named hypotheses and full statements *)
+
+Definition crc_inj (crc : N -> list N -> N) : Prop :=
+  forall i l i' l', l <> [] -> l' <> [] -> crc i l = crc i' l' -> i = i' /\ l = l'.
+Definition cyid_inj (cyid : cyaml -> N) : Prop := forall c c', cyid c = cyid c' -> c = c'.
+
+(** full no-op statement: a second deployment of unchanged sources logs no
+    rebuild.  Proved only per artefact ([noop_deploy_rewrites_nothing_partial]:
+    every freshly built artefact is judged up to date and the store is left
+    untouched); the workspace-level statement needs the extra hypothesis that
+    no two schemas with different compiled configs share a prism name - see
+    [noop_shared_prism_witness], where it fails in the model. *)
+Definition noop_deploy_rewrites_nothing_full : Prop :=
+  forall crc cyid list_of info_of dinfo_of, crc_inj crc -> cyid_inj cyid ->
+  forall Hist, coherent Hist -> nonzero Hist ->
+  forall s a, In s Hist -> wf_srcs list_of info_of s -> Inv crc cyid Hist a ->
+  let a1 := fst (fst (deploy crc cyid list_of info_of dinfo_of s a)) in
+  forallb (fun e => negb (rebuilt_entry e)) (snd (fst (deploy crc cyid list_of info_of dinfo_of s a1))) = true.
+
+(** ** concrete runs of the model: non-vacuity and the two observations *)
+
+Definition demo_crc (i : N) (l : list N) : N := fold_left (fun a x => a * 31 + x + 1) l (i + 7).
+Definition demo_cyid (c : cyaml) : N :=
+  fold_left (fun a e => a * 17 + snd e + 3) (cy_ts c) 5.
+Definition demo_list_of (_ : cyfrom) : list N := [1; 2].
+Definition demo_info_of (_ : cyfrom) : schema_info :=
+  {| si_dict := Some 10; si_prism := None; si_packs := []; si_deps := [] |}.
+Definition demo_dinfo_of (_ : N) : dict_info := {| di_imports := []; di_vocab := None |}.
+
+Definition demo_srcs : srcs :=
+  [(FRes RDefault, mkver 1 100); (FRes (RSchema 1), mkver 2 101); (FRes (RSchema 2), mkver 3 102);
+   (FDict 10, mkver 4 103)].
+
+Definition demo_deploy := deploy demo_crc demo_cyid demo_list_of demo_info_of demo_dinfo_of.
+
+(** the hypotheses of the theorems are satisfiable: these sources are well formed,
+    the empty store is invariant, the deployment succeeds and builds six artefacts *)
+Example wf_demo : wf_srcs demo_list_of demo_info_of demo_srcs.
+Proof.
+  split; [discriminate|]. split.
+  - intros x [<-|[<-|[]]]; discriminate.
+  - intros x _. reflexivity.
+Qed.
+
+Example deploy_demo_runs :
+  snd (demo_deploy demo_srcs []) = true /\
+  map fst (fst (fst (demo_deploy demo_srcs []))) =
+  [KPrism 10; KCy (Some 2); KPrism 10; KRev 10; KTab 10; KCy (Some 1); KCy None].
+Proof. vm_compute. split; reflexivity. Qed.
+
+(** observation 1 (hypothesis, not a finding): two schemas with different compiled
+    configs sharing one prism name make every deployment rebuild that prism *)
+Example noop_shared_prism_witness :
+  let a1 := fst (fst (demo_deploy demo_srcs [])) in
+  existsb rebuilt_entry (snd (fst (demo_deploy demo_srcs a1))) = true.
+Proof. vm_compute. reflexivity. Qed.
+
+(** observation 2 (outside the edit alphabet): deleting a .dict.yaml keeps the
+    old table in use ("no source, reuse the binary") *)
+Example delete_dict_keeps_table_witness :
+  let a1 := fst (fst (demo_deploy demo_srcs [])) in
+  let s2 := firstn 3 demo_srcs in
+  get_tab (fst (fst (demo_deploy s2 a1))) (KTab 10) = get_tab a1 (KTab 10) /\
+  get_tab a1 (KTab 10) <> None /\
+  get_tab (fst (fst (demo_deploy s2 []))) (KTab 10) = None.
+Proof. vm_compute. repeat split; discriminate. Qed.
